@@ -126,6 +126,7 @@ def halfway_inputs(F, rng, binades, pats_per=3, long_ok=True, variants=True):
                 continue
             forms = [ds]
             forms.append(str(int(ds) - 1).rjust(n, "0"))          # one unit below in the last place
+            forms.append(str(int(ds) + 1))                          # one unit above in the last place (same digit count or one more)
             forms.append(ds + "0" * rng.choice([0, 1, 5]) + "1")   # strictly above
             cuts = [c for c in (17, 19, 20, 21, 767, 768, 769, 770) if c < n]
             for c in samp(rng, cuts, min(3, len(cuts))):
